@@ -226,7 +226,7 @@ def exec (σ : State S) (c : Cmd S) : R (State S × Out S) :=
     let hs ← mapR σ.get vs
     let (σ1, hs') ← gdUpdate σ lr hs
     let σ2 := (vs.zip hs').foldl (fun (s : State S) p => s.bind p.1 p.2) σ1
-    pure (σ2, .ok)
+    pure (σ2, .params (hs'.map (fun h => (σ2.tensorOf h, σ2.grad.getD h.node none))))
   | .dense l inp out act w b => do
     let wt ← Tensor.mk? [out, inp] w
     let bt ← Tensor.mk? [out] b
@@ -276,7 +276,7 @@ def exec (σ : State S) (c : Cmd S) : R (State S × Out S) :=
     | some mr =>
       let ps := modelParams σ mr.layers
       let (σ1, ps') ← gdUpdate σ mr.lr ps
-      pure (putParams σ1 mr.layers ps', .ok)
+      pure (putParams σ1 mr.layers ps', .params (ps'.map (fun h => (σ1.tensorOf h, σ1.grad.getD h.node none))))
     | none => throw .modelGap
   | .params m => do
     match lookup σ.models m with
